@@ -25,8 +25,7 @@ Definition SLF (s : state) : Prop := o_sl (s_o s) = None /\ forall j, nosl (a_co
 
 Lemma nosl_programs : forall k, nosl (prog_of k) = true.
 Proof.
-  destruct k as [|n|n|n|n|n|past| |evs| | |b]; try reflexivity.
-  - destruct past; reflexivity.
+  destruct k as [|n|n|n|n|n|m|j|evs| | |b]; try reflexivity.
   - cbn [prog_of]. induction evs as [|e evs IH]; [reflexivity|exact IH].
 Qed.
 
